@@ -49,9 +49,10 @@ def _pick(rng, seq, weights=None):
 
 
 FAULTS_BY_API = {
-    "compute_dynamics": ["hamiltonian", "gamma", "lindblad", "cap", "shape"],
+    "compute_dynamics": ["hamiltonian", "gamma", "lindblad", "cap", "shape",
+                         "control"],
     "compute_dynamics_with_field": ["hamiltonian", "field_eom", "gamma",
-                                    "cap", "shape"],
+                                    "cap", "shape", "control"],
     "gradient": ["hamiltonian", "target", "prop_derivative", "cap", "shape",
                  "gamma", "lindblad"],
     "tempo": ["hamiltonian", "gamma", "lindblad"],
@@ -82,12 +83,22 @@ def gen_case(rng, tier="quick"):
         case["steps"] = rng.randrange(2, 5)
     if api == "compute_dynamics_with_field":
         case["nsys"] = _pick(rng, [1, 2])
+    # the convenience front ends run the same progress scopes
+    case["shortcut"] = api in ("tempo", "pt_tempo", "gibbs_tempo",
+                               "correlations") and rng.random() < 0.35
+    if case["shortcut"]:
+        case["calls"] = 1
     if rng.random() < 0.7:
         kind = _pick(rng, FAULTS_BY_API[api])
         fault = {"kind": kind}
         n = case["steps"]
         if kind in ("cap", "shape", "pt_raises", "pt_short", "gate_task"):
             fault["k"] = rng.randrange(0, n)
+        elif kind == "control":
+            # an input rejected midway: a control operation whose shape
+            # does not fit, applied before (pre) or after (post) the record
+            fault["k"] = rng.randrange(0, n + 1)
+            fault["post"] = bool(rng.randrange(2))
         elif kind in ("hamiltonian", "gamma", "lindblad", "field_eom"):
             if api in ("gradient", "correlations"):
                 fault["mode"] = "call"
@@ -280,6 +291,16 @@ def _pts(case, n, exact=False):
     return pts
 
 
+def _bad_control(case, n):
+    import oqupy
+    f = case.get("fault") or {}
+    if f.get("kind") != "control":
+        return None
+    c = oqupy.Control(2)
+    c.add_single(min(f["k"], n), np.identity(9), post=f.get("post", False))
+    return c
+
+
 def sc_compute_dynamics(case, sim, plan):
     import oqupy
     o = models.ops()
@@ -287,11 +308,13 @@ def sc_compute_dynamics(case, sim, plan):
     h, g, lo = _td_callables(case, sim, plan, 0.1)
     system = oqupy.TimeDependentSystem(h, gammas=[g], lindblad_operators=[lo])
     pts = _pts(case, n)
+    control = _bad_control(case, n)
 
     def call():
         return oqupy.compute_dynamics(
             system, o["up"], process_tensor=pts, num_steps=n,
-            subdiv_limit=None, progress_type=case["progress"])
+            control=control, subdiv_limit=None,
+            progress_type=case["progress"])
     return [call]
 
 
@@ -328,12 +351,14 @@ def sc_compute_dynamics_with_field(case, sim, plan):
     mfs = _field_system(case, sim, plan, 0.1, nsys)
     pts = _pts(case, n)
     pt_list = [list(pts) for _ in range(nsys)]
+    bad = _bad_control(case, n)
+    controls = None if bad is None else [None] * (nsys - 1) + [bad]
 
     def call():
         return oqupy.compute_dynamics_with_field(
             mfs, 1.0 + 0.5j, process_tensor_list=pt_list, num_steps=n,
-            initial_state_list=[o["up"]] * nsys, subdiv_limit=None,
-            progress_type=case["progress"])
+            initial_state_list=[o["up"]] * nsys, control_list=controls,
+            subdiv_limit=None, progress_type=case["progress"])
     return [call]
 
 
@@ -421,6 +446,10 @@ def sc_tempo(case, sim, plan):
     bath = models.make_bath(case["pt"])
     pars = oqupy.TempoParameters(dt=dt, epsrel=1e-4, dkmax=2,
                                  subdiv_limit=None)
+    if case.get("shortcut"):
+        return [lambda: oqupy.tempo_compute(
+            system, bath, o["up"], 0.0, (n + 0.5) * dt, parameters=pars,
+            progress_type=case["progress"])]
     tempo = oqupy.Tempo(system, bath, pars, o["up"], 0.0)
     calls = []
     if case.get("calls", 1) == 2:
@@ -474,6 +503,9 @@ def sc_pt_tempo(case, sim, plan):
     ptt = oqupy.PtTempo(bath, 0.0, (n + 0.5) * dt, pars)
 
     def call():
+        if case.get("shortcut"):
+            # computes on demand, inside get_process_tensor
+            return ptt.get_process_tensor(progress_type=case["progress"])
         ptt.compute(progress_type=case["progress"])
         return ptt
     return [call]
@@ -485,6 +517,9 @@ def sc_gibbs_tempo(case, sim, plan):
     bath = _custom_sd_bath(case, sim, plan, 1.0)
     system = oqupy.System(0.5 * o["z"])
     pars = oqupy.GibbsParameters(n_steps=case["steps"] + 2, epsrel=1e-4)
+    if case.get("shortcut"):
+        return [lambda: oqupy.gibbs_tempo_compute(
+            system, bath, pars, progress_type=case["progress"])]
     gt = oqupy.GibbsTempo(system, bath, pars)
 
     def call():
@@ -562,6 +597,12 @@ def sc_correlations(case, sim, plan):
     pt = pts[0]
 
     def call():
+        if case.get("shortcut"):
+            return oqupy.compute_correlations_nt(
+                system, pt, [o["z"], o["x"], o["y"]],
+                ops_times=[0, slice(0, 2), slice(1, n)],
+                ops_order=["left", "right", "left"], initial_state=o["up"],
+                progress_type=case["progress"])
         return oqupy.compute_correlations(
             system, pt, o["z"], o["x"], times_a=slice(0, min(3, n)),
             times_b=slice(0, n), initial_state=o["up"],
@@ -614,7 +655,8 @@ def run_case(case, dec):
             except Exception as e:  # noqa: BLE001 - classified below
                 outcome = "raised:" + type(e).__name__
                 if plan.fired or (case.get("fault") or {}).get("kind") in (
-                        "cap", "shape", "pt_short", "pt_raises", "gate_task"):
+                        "cap", "shape", "pt_short", "pt_raises", "gate_task",
+                        "control"):
                     pass  # expected consequence of the injected fault
                 else:
                     notes.append("unexpected %s: %s" % (
@@ -654,7 +696,7 @@ def run_case(case, dec):
     }
     f = case.get("fault")
     if f and f["kind"] in ("cap", "shape", "pt_short", "pt_raises",
-                           "gate_task") and outcomes and \
+                           "gate_task", "control") and outcomes and \
             outcomes[-1] != "returned":
         res["faults_fired"]["input:" + f["kind"]] = 1
     return res
